@@ -187,6 +187,76 @@ func runC03(c *Ctx) {
 	c.Rule("C03.Q6", "PROVENANCE", "the threshold returned by getLookbackStakeInfo (the source of every live quorum base) derives from protocol parameters only, and StepView.Threshold / judgeVoteCount thresholds derive from it")
 	c.Min(3)
 	c03Q6(c, w, pvm, jvcObj)
+
+	// ------------------------------------------------------------ Q7
+	c.Rule("C03.Q7", "RESET-WITH", "in (*Voter).updateContext the per-(round, round index) counting state — the quorum-crossed flags voteOver and the vote container votesMgr — is replaced on every path on which the stored round or round index changes: a path that reaches the store of the new round index without replacing them has established round == ev.Round and roundIndex == ev.RoundIndex")
+	c.Min(2)
+	c03Q7(c, w)
+}
+
+func c03Q7(c *Ctx, w *World) {
+	uc := w.Fn(uconPkg, "Voter", "updateContext")
+	c.sawFunc(fname(uc))
+	riF := w.Field(uconPkg, "Voter", "roundIndex")
+	var target *ssa.BasicBlock
+	for _, fw := range fieldWrites(uc) {
+		if fw.Field == riF {
+			if target != nil {
+				c.Undecided(fname(uc)+"#round-index-store", fw.Instr.Pos(), "more than one store of Voter.roundIndex")
+				return
+			}
+			target = fw.Instr.Block()
+		}
+	}
+	if target == nil {
+		c.Undecided(fname(uc)+"#round-index-store", uc.Pos(), "the store of Voter.roundIndex was not found")
+		return
+	}
+	isField := func(v ssa.Value, owner, name string) bool {
+		f, _ := loadedField(stripConv(v))
+		return f != nil && f.Name() == name && ownerNameOfField(w, f) == owner
+	}
+	for _, fn := range []string{"voteOver", "votesMgr"} {
+		f := w.Field(uconPkg, "Voter", fn)
+		stores := map[*ssa.BasicBlock]bool{}
+		for _, fw := range fieldWrites(uc) {
+			if fw.Field == f {
+				stores[fw.Instr.Block()] = true
+			}
+		}
+		nPaths, bad := 0, 0
+		ok := pathsBetween(uc, uc.Blocks[0], target, 20000, func(blocks []*ssa.BasicBlock, facts []Fact) {
+			nPaths++
+			for _, b := range blocks {
+				if stores[b] {
+					return
+				}
+			}
+			sameRound, sameIndex := false, false
+			for _, a := range atomsOf(facts) {
+				if a.Kind != "eq" || !a.Truth {
+					continue
+				}
+				if cc, isCall := stripConv(a.X).(*ssa.Call); isCall && calleeObj(cc) != nil && calleeObj(cc).Name() == "Cmp" {
+					if n, isC := constInt(a.Y); isC && n == 0 && isField(callRecv(cc), "Voter", "round") && isField(callArgs(cc)[0], "ContextChangeEvent", "Round") {
+						sameRound = true
+					}
+				}
+				if (isField(a.X, "Voter", "roundIndex") && isField(a.Y, "ContextChangeEvent", "RoundIndex")) || (isField(a.Y, "Voter", "roundIndex") && isField(a.X, "ContextChangeEvent", "RoundIndex")) {
+					sameIndex = true
+				}
+			}
+			if !sameRound || !sameIndex {
+				bad++
+			}
+		})
+		c.sites += nPaths
+		if !ok {
+			c.Undecided(fname(uc)+"#"+fn+"-reset", uc.Pos(), "paths to the round-index store could not be enumerated")
+			continue
+		}
+		c.Check(fname(uc)+"#"+fn+"-reset", uc.Pos(), bad == 0 && len(stores) > 0, ifelse(bad == 0 && len(stores) > 0, fmt.Sprintf("all %d paths to the new round index either replace %s or keep round and index", nPaths, fn), fmt.Sprintf("%d of %d paths change the round or round index and keep the old %s: quorum flags / votes counted in one round index count towards escalation in another, so a commit can be announced with precommits that are below quorum in its own index", bad, nPaths, fn)))
+	}
 }
 
 // siteOrdinal gives a line-free discriminator for several similar sites in one
